@@ -32,7 +32,7 @@ def dispatch (stream payload : String) : String × String × String :=
   else if stream == "nilpat" then runDefrag payload
   else if stream == "revealtrees" then runReveal payload
   else if stream == "sched" then runSched payload
-  else if stream == "eqpair" then runEq false payload else if stream == "equnit" then runEq true payload
+  else if stream == "eqpair" || stream == "eqmut" then runEq false payload else if stream == "equnit" then runEq true payload
   else if stream == "eqseqs" then runEqSeqs payload
   else if stream == "genfuncs" then runGenFuncs payload
   else if stream == "closures" then runClosures payload
